@@ -114,4 +114,16 @@ def realpath (t : Tree_) (path : RelPath) (resolveLast : Bool) : Resolved :=
     let segs := if path.path = [] then [] else splitOn slash path.path
     realpathSegs t (numLinks t + 2) resolveLast segs ⟨[], 0⟩
 
+/-- the exported `ResolveLink` (since `fix:` for links in the directory part of `startingAt`): the directory the link sits
+    in is resolved inside the base first, then the target is walked from there -/
+def resolveLinkTop (t : Tree_) (target : Bytes) (startingAt : RelPath) : Resolved :=
+  if startingAt.goesUp then .err .breakout startingAt
+  else if startingAt.path = [] then (resolveLink t (numLinks t + 2) target startingAt []).1
+  else
+    match realpath t startingAt.dir true with
+    | .ok d => (resolveLink t (numLinks t + 2) target (d.join (single startingAt.last)) []).1
+    | .err c _ => .err c startingAt
+    | r => r
+
+
 end Rio
